@@ -329,7 +329,9 @@ def strategy(draw):
             "alphabet": draw(st.sampled_from(["ACGT", "ACGT", "TGCA", "CATG"])),
             "bias": draw(st.sampled_from([0, 0, 3, 7])), "bias_via": draw(st.sampled_from(["kwargs", "additional_func_kwargs"]))}
     if func == "dls":
-        case["arch"] = draw(nets.arch_strategy(L, max_blocks=2, n_targets=2))
+        # no max-pooling here: the expectation is computed with another batch composition than the wrapper uses, and an exact
+        # max-pool tie (poly-A stretches) can be broken differently by torch's own last-bit batch dependence (DESIGN 10, C06)
+        case["arch"] = draw(nets.arch_strategy(L, max_blocks=2, n_targets=2, allow_maxpool=False))
         case["rs"] = draw(st.integers(0, 10 ** 6))
         case["args"] = []
     elif op not in ("pairwise", "product"):
